@@ -285,5 +285,53 @@ def run(ctx):
                             if abs(acc.get(v, 0) - float(d["flow"])) > 1e-6), None)
                 if bad:
                     ctx.report(f"{name} (node-weighted, self-loop): returned decomposition does not explain the node weights: {bad}", rep)
+    # ---- flow values whose numeric type differs from the requested weight type: weight_type=int on FLOAT flow values that are
+    # integral (3.0) or not (2.5, x.25).  A solved model must still explain the input values exactly with weights of type int
+    # (so on a non-integral flow every "solved" answer is wrong); weight_type=float on int values must return floats/ints.
+    for i in range(ctx.budget(40, 800)):
+        rng = ctx.rng("typemix", i)
+        cyc = i % 2 == 1
+        name = rng.choice(["kFlowDecompCycles", "MinFlowDecompCycles"] if cyc else ["kFlowDecomp", "MinFlowDecomp"])
+        G0 = gen.rand_cyclic(rng, nmax=5) if cyc else gen.rand_dag(rng, nmax=6)
+        srcs = [v for v in G0 if G0.in_degree(v) == 0]; snks = [v for v in G0 if G0.out_degree(v) == 0]
+        if not srcs or not snks:
+            continue
+        G = nx.DiGraph(); G.graph["id"] = f"typemix{i}"; G.add_edges_from(G0.edges(), flow=0)
+        kind = rng.choice(["integral_float", "integral_float", "half", "quarter", "one_fractional_route"])
+        nroutes = rng.randint(1, 3); ok = True; used = []
+        for j in range(nroutes):
+            w = gen.rand_walk(rng, G0, maxlen=10) if cyc else rng.choice(gen.all_st_paths(G0))
+            if w is None:
+                ok = False; break
+            base = rng.randint(1, 6)
+            x = {"integral_float": float(base), "half": base + 0.5, "quarter": base + rng.choice([0.25, 0.5, 0.75]),
+                 "one_fractional_route": (base + 0.5) if j == 0 else float(base)}[kind]
+            used.append(x)
+            for e in gen.pairs(w):
+                G.edges[e]["flow"] += x
+        if not ok:
+            continue
+        G.remove_edges_from([e for e in list(G.edges()) if G.edges[e]["flow"] == 0])
+        G.remove_nodes_from([v for v in list(G.nodes()) if G.degree(v) == 0])
+        if G.number_of_edges() == 0:
+            continue
+        for e in G.edges(): G.edges[e]["flow"] = float(G.edges[e]["flow"])
+        args = dict(G=G, flow_attr="flow", weight_type=int, solver_options={"threads": THREADS})
+        if name.startswith("k"):
+            args["k"] = nroutes + rng.choice([0, 1])
+        if not cyc and rng.random() < 0.4:
+            args["optimization_options"] = {"optimize_with_greedy": False}
+        rep = {"class": name, "args": describe(args), "family": "type mix: " + kind, "route_values": used}
+        ctx.case(["typemix", name, describe(args)], nontrivial=True); ctx.count("E2_explains_flow", "typemix_cases"); ctx.dist("typemix:" + kind)
+        try:
+            m = getattr(fp, name)(**args); m.solve()
+        except ValueError:
+            ctx.count("E2_explains_flow", "typemix_rejected"); continue
+        except Exception as e:
+            ctx.report(f"{name} raised {e!r}", rep); continue
+        if not m.is_solved():
+            ctx.count("E2_explains_flow", "typemix_unsolved"); continue
+        ctx.count("E2_explains_flow", "typemix_solved")
+        check_solution(ctx, name, args, m, m.get_solution(), routes_key="walks" if cyc else "paths")
     VB.flush()
     gencheck_enc.run_generated_kfd(ctx)      # generated-model tie of _encode_paths / _encode_flow_decomposition (coq/gen_proofs)
